@@ -374,7 +374,7 @@ def cases(tier, seed):
                    "configs": [[1, 0, False], [0, 0, False], [2, 0, False], [1, 0, True]] + ([[1, 1, False], [1, 2, False]] if T else [])})
     # foreign-writer encodings: spec-legal encodings fontTools never emits, written by spec-level
     # writers and spliced in at the sfnt level (vmon/gen/c01_foreign.py)
-    plain = [rec for rec in pool if rec["complete"]]
+    plain = [rec for rec in pool if rec["complete"] and rec["numGlyphs"] >= 3]
     ttplain = [rec for rec in plain if rec["outlines"] == "glyf"]
     for kind, hosts, nq, nt in (("cmap", plain, 14, 70), ("name", plain, 6, 30), ("hmtx", plain, 8, 40),
                                 ("glyfpad", [r for r in ttplain if "VARC" not in r["tables"]], 6, 30),
